@@ -193,6 +193,17 @@ fn verify_crash(run: &Run, scen: &Value, scen_path: &str, pre_dir: &str, job: &J
 	run.eval(&format!("{};{}#{}", name, job.label, job.occurrence), true);
 
 	let h = hist_from_json(&scen["hist"]);
+	// compaction scenarios are verified twice: with the compaction re-run straight after the restart
+	// (path A, below) and, on a second copy of the left-over directory, with the compaction only
+	// happening later, after further blocks (path B, `deferred_compaction`) — what a node really does
+	let op_kind = scen["op"]["kind"].as_str().unwrap_or("").to_string();
+	let dir_b = if op_kind == "compact" || op_kind == "compact_then_block" {
+		let d = sc.sub(&format!("{}-{}-B", name, job.crash_at));
+		copy_dir(&dir, &d);
+		Some(d)
+	} else {
+		None
+	};
 	let ok = (|| -> bool {
 		// (1) opens without manual repair
 		let chain = match catch(|| open_chain(&dir, &h.genesis)) {
@@ -334,8 +345,128 @@ fn verify_crash(run: &Run, scen: &Value, scen_path: &str, pre_dir: &str, job: &J
 	if ok {
 		run.count("crash_points_recovered", 1);
 	}
+	if let Some(db) = &dir_b {
+		if ok {
+			deferred_compaction(run, scen, &h, db, &sig_base, &replay);
+		}
+		let _ = std::fs::remove_dir_all(db);
+	}
 	let _ = std::fs::remove_dir_all(&dir);
 	let _ = std::fs::remove_file(&log);
+}
+
+/// Path B for compaction scenarios (only for crash points that recovered on path A): the node restarts
+/// after the crash, keeps accepting blocks, and compacts later. Oracles: every call succeeds, full
+/// validation passes after the later compaction, the state equals the reference replay of its head, a
+/// further block is accepted and the node reopens cleanly once more.
+fn deferred_compaction(run: &Run, scen: &Value, h: &Hist, dir: &str, sig_base: &str, replay: &Value) {
+	let sig = |c: &str| format!("{};deferred_compaction;{}", sig_base, c);
+	let chain = match catch(|| open_chain(dir, &h.genesis)) {
+		Ok(Ok(c)) => c,
+		Ok(Err(e)) => {
+			run.violation(&sig("reopen_failed"), &e, replay.clone());
+			return;
+		}
+		Err(p) => {
+			run.violation(&sig(&format!("reopen_panicked@{}", p.location)), &p.message, replay.clone());
+			return;
+		}
+	};
+	let old_head = Hash::from_hex(scen["old_head"].as_str().unwrap()).unwrap();
+	let new_head = Hash::from_hex(scen["new_head"].as_str().unwrap()).unwrap();
+	// blocks of the accepted chain above the reopened head, the scenario's block (if any), the later block
+	let mut feed: Vec<Hash> = h.ledger.ancestry(&old_head).into_iter().skip(1).collect();
+	if new_head != old_head {
+		feed.push(new_head);
+	}
+	if let Some(a) = scen["after"].as_str() {
+		feed.push(Hash::from_hex(a).unwrap());
+	}
+	let head0 = match chain.head() {
+		Ok(t) => t.last_block_h,
+		Err(e) => {
+			run.violation(&sig("head_unreadable"), &format!("{:?}", e), replay.clone());
+			return;
+		}
+	};
+	for x in feed {
+		let gb = h.ledger.get(&x);
+		// already part of the reopened chain (compaction may have deleted its body: do not re-offer it)
+		if h.ledger.is_ancestor(&x, &head0) {
+			continue;
+		}
+		match catch(|| chain.process_block(gb.block.clone(), OPTS)) {
+			Ok(Ok(_)) => {}
+			Ok(Err(grin_chain::Error::Unfit(_))) => {}
+			Ok(Err(e)) => {
+				run.violation(&sig("block_rejected"), &format!("block {} (h {}) rejected after the restart: {:?}", x, gb.height, e), replay.clone());
+				return;
+			}
+			Err(p) => {
+				run.violation(&sig(&format!("process_block_panicked@{}", p.location)), &p.message, replay.clone());
+				return;
+			}
+		}
+	}
+	match catch(|| chain.compact()) {
+		Ok(Ok(())) => {}
+		Ok(Err(e)) => {
+			run.violation(&sig("later_compaction_failed"), &format!("{:?}", e), replay.clone());
+			return;
+		}
+		Err(p) => {
+			run.violation(&sig(&format!("later_compaction_panicked@{}", p.location)), &p.message, replay.clone());
+			return;
+		}
+	}
+	run.count("deferred_compactions_run", 1);
+	let check_state = |chain: &Chain, stage: &str| -> bool {
+		match catch(|| chain.validate(false)) {
+			Ok(Ok(())) => {}
+			Ok(Err(e)) => {
+				run.violation(&sig(&format!("{};validate_failed", stage)), &format!("validate(false): {:?}", e), replay.clone());
+				return false;
+			}
+			Err(p) => {
+				run.violation(&sig(&format!("{};validate_panicked@{}", stage, p.location)), &p.message, replay.clone());
+				return false;
+			}
+		}
+		let commits = h.all_commits();
+		let mut hh = hist_from_json(&scen["hist"]);
+		match snapshot(chain, &commits) {
+			Ok(s) => {
+				let st = hh.state(&s.head.0);
+				if let Some(d) = vcommon::snapshot::compare_with_ref(&s, &st) {
+					run.violation(&sig(&format!("{};state_vs_replay;{}", stage, d.split(':').next().unwrap_or(""))), &d, replay.clone());
+					return false;
+				}
+				true
+			}
+			Err(e) => {
+				run.violation(&sig(&format!("{};state_unreadable", stage)), &e, replay.clone());
+				false
+			}
+		}
+	};
+	if !check_state(&chain, "after_later_compaction") {
+		return;
+	}
+	drop(chain);
+	let chain = match catch(|| open_chain(dir, &h.genesis)) {
+		Ok(Ok(c)) => c,
+		Ok(Err(e)) => {
+			run.violation(&sig("second_reopen_failed"), &e, replay.clone());
+			return;
+		}
+		Err(p) => {
+			run.violation(&sig(&format!("second_reopen_panicked@{}", p.location)), &p.message, replay.clone());
+			return;
+		}
+	};
+	if check_state(&chain, "after_second_reopen") {
+		run.count("deferred_compactions_recovered", 1);
+	}
 }
 
 // ------------------------------------------------------------------ scenario construction (parent)
